@@ -26,6 +26,9 @@ def gen_cases(seed, tier):
     for mname in MODELS:
         for stoch, delay, safe, vol, df, via in itertools.product([False, True], [None, False, True], [False, True], VOLS, [True, False], ["model", "interface"]):
             cases.append({"model": mname, "stochastic": stoch, "delay": delay, "safe": safe, "volume": vol, "df": df, "via": via, "seed": 1000 + seed})
+            # the same combination on a grid with as many time points as the model has species: a square result array
+            # (seeded change S2_C07: orientation guessed from the shape)
+            cases.append({"model": mname, "stochastic": stoch, "delay": delay, "safe": safe, "volume": vol, "df": df, "via": via, "seed": 2000 + seed, "grid": "square"})
     # the two rejections by the entry point itself
     for mname in ["plain"]:
         cases.append({"model": mname, "stochastic": True, "delay": None, "safe": False, "volume": "off", "df": True, "via": "both", "seed": 1})
@@ -40,7 +43,7 @@ def impl_case(case):
     warnings.simplefilter("ignore")
     m = MODELS[case["model"]]
     M = Model(species=list(m["species"]), reactions=[tuple(r) for r in m["reactions"]], rules=[tuple(r) for r in m["rules"]], initial_condition_dict=dict(m["x0"]))
-    T = np.linspace(0, 2, 9)
+    T = np.linspace(0, 2, 9) if case.get("grid") != "square" else np.linspace(0, 2, len(m["species"]))
     kw = {"stochastic": case["stochastic"], "delay": case["delay"], "safe": case["safe"], "return_dataframe": case["df"]}
     if case["volume"] == "off": kw["volume"] = False
     elif case["volume"] == "true": kw["volume"] = True
@@ -95,7 +98,7 @@ def compare(case, r, out):
 
 def oracle(case, r):
     if not r or "outcome" not in r: return "from inside: %s" % json.dumps(r)[:300]
-    tag = "stochastic=%s delay=%s safe=%s volume=%s df=%s via=%s model=%s" % (case["stochastic"], case["delay"], case["safe"], case["volume"], case["df"], case["via"], case["model"])
+    tag = "stochastic=%s delay=%s safe=%s volume=%s df=%s via=%s model=%s grid=%s" % (case["stochastic"], case["delay"], case["safe"], case["volume"], case["df"], case["via"], case["model"], case.get("grid", "9 points"))
     if case["via"] in ("both", "neither"):
         return None if r["outcome"] == "ValueError" else "options: neither/both of Model and Interface not rejected (%s)" % tag
     if r["outcome"] == "ValueError":
